@@ -139,6 +139,18 @@ def compare(res: Res, p: dict, r0, src0: str, knobs: list[str], rng: random.Rand
                     files1[k] = "\n\n" + files1[k] + "\n\n"
                 elif c < 0.6:
                     files1[k] = files1[k].replace("\n", "\r\n")      # the included file saved with CR LF line ends
+    if include and rng.random() < 0.25:
+        # the included file first has a typo (or does not exist yet), the assembly fails, the file is corrected and the same process assembles again
+        inc = [k for k in files1 if k.endswith(".s") and isinstance(files1[k], str)]
+        if inc:
+            broken = dict(files1)
+            k = rng.choice(inc)
+            if rng.random() < 0.5:
+                broken[k] = files1[k] + "\n!!!\n"
+            else:
+                del broken[k]
+            rb = assemble(src1, files=broken or None, rom=p.get("rom"))
+            res.count("failed_include_first" if not rb.ok else "broken_include_accepted")
     r1 = assemble(src1, files=files1 or None, rom=p.get("rom"))
     names = knobs + (["include"] if include else [])
     res.case(src1, r0.ok and src1 != src0)
@@ -195,6 +207,31 @@ def check_many_includes(res: Res, p: dict, rng: random.Random) -> None:
                      "knobs": ["include-per-statement"]})
 
 
+def check_banner(res: Res, p: dict, r0, src0: str, rng: random.Random) -> None:
+    """A long run of comment lines (a commented-out table, a disassembly listing kept as notes) between two statements."""
+    lines = src0.split("\n")
+    n = rng.choice([300, 1000, 1500, 2500, 4000])
+    kinds = rng.choice([[";"], [";", "/*"], [";", "", "/*"], ["/*"]])
+    banner = []
+    for i in range(n):
+        k = rng.choice(kinds)
+        banner.append(f"; ${i:04x}: lda.w 0x{i:04x},x  {{" if k == ";" else f"/* entry {i} */" if k == "/*" else "")
+    at = rng.randint(0, len(lines) - 1)
+    depth = sum(ln.count("{") - ln.count("}") for ln in lines[:at])
+    src1 = "\n".join(lines[:at] + banner + lines[at:])
+    files = materialise(p)[1]
+    r1 = assemble(src1, files=files or None, rom=p.get("rom"))
+    res.case(src1, r0.ok)
+    res.count("knob[comment-banner]")
+    res.see("banner_lengths", n)
+    if sig(r1) != sig(r0):
+        bad = r1 if not r1.ok else r0
+        d = f"accepted={r0.ok} without vs accepted={r1.ok} with the comment lines ({bad.err_kind}: {bad.err_text[:160]})" if r0.ok != r1.ok else "output differs"
+        res.violate("layout:comments", f"{n} comment lines in a row before line {at + 1} (nesting depth {depth}) change the result: {d}",
+                    {"p": {k: v for k, v in p.items() if k != "files"}, "src": src0, "relayout_src": src1, "banner": [n, kinds, at], "knobs": ["comment-banner"],
+                     "relayout_files": {k: v for k, v in files.items() if isinstance(v, str)}, "files": {k: bytes(v).hex() for k, v in files.items() if not isinstance(v, str)}})
+
+
 def check_program(res: Res, p: dict, rng: random.Random, relayouts: int) -> None:
     check_shared(res, p, rng, False)
     check_shared(res, p, rng, True)
@@ -204,6 +241,8 @@ def check_program(res: Res, p: dict, rng: random.Random, relayouts: int) -> None
     res.count("programs_accepted" if r0.ok else "programs_rejected")
     for k in KNOBS:
         compare(res, p, r0, src0, [k], rng, False)
+    if rng.random() < 0.12 and not any(isinstance(v, str) and k.endswith(".s") for k, v in materialise(p)[1].items()):
+        check_banner(res, p, r0, src0, rng)
     compare(res, p, r0, src0, [], rng, True)
     for _ in range(relayouts):
         knobs = [k for k in KNOBS if rng.random() < 0.4]
@@ -277,8 +316,9 @@ def replay(w: dict) -> Res:
     if "sample" in w:
         r0, r1 = assemble(w["src"]), assemble(w["relayout_src"])
     else:
-        r0 = assemble(w["src"], rom=w["p"].get("rom"))
-        r1 = assemble(w["relayout_src"], files=w.get("relayout_files") or None, rom=w["p"].get("rom"))
+        binf = {k: bytes.fromhex(v) for k, v in (w.get("files") or {}).items()}
+        r0 = assemble(w["src"], files={**binf, **(w.get("relayout_files") or {})} if w.get("banner") else (binf or None), rom=w["p"].get("rom"))
+        r1 = assemble(w["relayout_src"], files={**binf, **(w.get("relayout_files") or {})} or None, rom=w["p"].get("rom"))
     res.case(w["relayout_src"], True)
     if sig(r0) != sig(r1):
         res.violate("layout-composition", f"re-layout changes the result: canonical ok={r0.ok}, re-laid-out ok={r1.ok} {r1.err_kind} {r1.err_text[:160]}", w)
